@@ -14,6 +14,11 @@
 //     compact R(i,j) form) are evaluated in Go over real leaf hashes: all sizes 1..256 with
 //     structured subsets, random subsets up to 2^12 leaves, apply/revert interleavings.
 //  4. The same through the public API: a real v2 chain (chain.go).
+//  5. Block level: spec/acc/AccBlocks.tla models WHICH leaves a block hands to the accumulator and with
+//     which flags (elements created and spent / revised / resolved inside one block enter with the flags
+//     the diffs report); TLC enumerates every small block exhaustively and simulates longer histories;
+//     every behaviour is replayed as real signed blocks through ValidateBlock / ApplyBlock / RevertBlock and
+//     State.Elements, every tracked proof and ForEachTreeNode are compared with the model's forest (blocks.go).
 package main
 
 import (
@@ -284,9 +289,11 @@ func main() {
 		"(1) TLC-emitted (the core): every (n0<=N, U subset of the n0 leaves, k<=5) followed by its revert [AccCases], and -simulate histories of 12 apply/revert steps on forests <=40 leaves [AccHist]; expected Trees/NumLeaves/proofs arrive as N(l,r) terms over leaf tokens and are evaluated with the real leaf hash and blake2b.SumPair. " +
 		"(2) Beyond TLC's bound, SPEC DEFINITIONS EVALUATED IN GO: NaiveRoots/NaivePath in the compact R(i,j) form (cross-checked, by text equality of the expansion, against every TLC-printed term) evaluated by hterm.PerfectRoots over real leaf hashes: every size 1..256 with subsets of size<=2 at structured positions (first, last, either side of every tree boundary and merge point of n and n+k), random subsets on sizes up to 2^12, apply/revert interleavings to depth 12. " +
 		"(3) Public API: a real v2 chain (ApplyBlock/RevertBlock, UpdateElementProof, ForEachTreeNode, State.Elements) compared with the naive forest over the real leaf hashes. " +
-		"evaluations = steps (initial build, apply, revert, chain block, chain revert) executed on the real code and compared entry by entry; one step is distinct by (leaf count, U, k | revert target and undo stack) and non-trivial if it changed the proof of at least one element that existed before and after the step.")
+		"(4) TLC-emitted BLOCK histories [AccBlocks]: abstract v1/v2 transactions over the forest's elements and over elements created earlier in the same block (ephemeral siacoin/siafund outputs v1->v1, v1->v2, v2->v2; v1 contracts formed+revised, formed+proved, revised+proved in one block; v2 contracts revised twice, revised+renewed; supplement expirations); exhaustively every block of <=2 (thorough: 3) transactions on a genesis forest followed by its revert, and -simulate histories of 12-14 blocks/reverts; the model derives the diff list, the leaves with the flags the diffs report, roots and proofs as terms; the harness builds the real signed blocks (ValidateBlock must accept), applies/reverts them and compares State.Elements, every tracked proof, containsLeaf with the model's status, the status reported by the diffs, and ForEachTreeNode. " +
+		"evaluations = steps (initial build, apply, revert, chain block, chain revert, model block, model revert) executed on the real code and compared entry by entry; one step is distinct by (leaf count, U, k | revert target and undo stack | leaf count and abstract block) and non-trivial if it changed the proof of at least one element that existed before and after the step.")
 	c.Assume("hash terms are injective: results are relative to collision resistance of blake2b")
 	c.Assume("consensus/verif_export.go (build tag verif) forwards to the unexported originals without adding behaviour")
+	c.Assume("AccBlocks.tla's account of what a block may contain (validation.go) and of the order in which application.go records element diffs is a transcription: a disagreement about admissibility or leaf ORDER stops the run as an infrastructure failure, it is never a verdict")
 	c.Assume("TLC-emitted expectations are the model's state variables, which TLC proved equal to the definition layer (RootsMatchNaive, ProofsMatchNaive) on every emitted state")
 
 	tot := &totals{st: newStats(), distinct: map[uint64]struct{}{}}
